@@ -274,11 +274,15 @@ def reroute(rng, ops, p=0.2):
 # value up to N shows at its multiples), followed by the state and a little more data on the same object ----
 def sweep_cases(rng, fam, mode, N):
     base = "cbc-enc" if fam in ("buf", "cts") else mode
-    bs, w = small_matrix(rng, base, 8)
-    key = rb(rng, 16)
-    mbs = mode_bs(mode, bs)
+    # several (block size, width) configurations take turns over the lengths (a constant may be in bytes or in blocks, and
+    # may interact with a block size that does not divide it)
+    pool = [x for x in matrix_for(base) if x[0] <= 8] or [x for x in matrix_for(base) if x[0] <= 16]
+    cfgs = rng.sample(pool, min(5, len(pool)))
+    keys = [rb(rng, 16) for _ in cfgs]
     out = []
     for n in range(1, N + 1):
+        (bs, w), key = cfgs[n % len(cfgs)], keys[n % len(cfgs)]
+        mbs = mode_bs(mode, bs)
         if fam == "block":
             iv = rb(rng, ivlen(mode, bs))
             c = Case(fam, mode, bs, w, key, iv, cls_sweep=1)
